@@ -177,7 +177,12 @@ class _Gen:
         elif k < 0.86 and whole and w > 0:
             width = r.randint(0, min(4, w + 1))
             stride = r.choice([1, width]) if width else 1
-            t = ["part", ["sig", si], self.explicit_unsigned(readable), width, stride]
+            off = self.explicit_unsigned(readable)
+            if r.random() < 0.12:
+                # a wide offset (think of a 64-bit address) that is far out of range: nothing is assigned, at no cost
+                # (2**60: an implementation that shifts by the offset fails at once instead of exhausting the machine's memory)
+                off = ["cat", [off, ["const", 1 << 57, 58, False]]]
+            t = ["part", ["sig", si], off, width, stride]
         elif k < 0.9 and n > 0:
             # array of chunks of unrelated widths / signedness with the same owner (this chunk among them), optionally addressed
             # through a slice of the proxy: bits that fall outside a narrow element must be dropped
